@@ -1,0 +1,159 @@
+//! `connection/ack_frequency.rs::AckFrequencyState` with the peer's transport parameters
+//! (`min_ack_delay`, `max_ack_delay`, validated by the real `TransportParameters::read`) and the local
+//! `AckFrequencyConfig`.
+//!
+//! Requests (first token `ackfreq` already removed); durations are nanoseconds unless named otherwise:
+//!   new <default_max_ack_delay_ns>                 AckFrequencyState::new, fresh PendingAcks, default config/params
+//!   peer <max_ack_delay_ms> <min_ack_delay_us|none>  write+read transport parameters, then what set_peer_params does
+//!   cfg <max_ack_delay_ns|none>                    AckFrequencyConfig::max_ack_delay
+//!   cand <rtt_ns>                                  candidate_max_ack_delay
+//!   should <rtt_ns>                                should_send_ack_frequency
+//!   nextseq | sent <pn> <max_ack_delay_ns> | acked <pn> | pto
+//!   recv <seq> <ack_eliciting_threshold> <request_max_ack_delay_us> <reordering_threshold>   ack_frequency_received
+//! State suffix: `inflight=<pn>:<ns>|none next=<n> peer_mad=<ns> last=<n|none> mad=<ns> thr=<n>,<n>`
+use super::{num, Comp, BAD};
+use crate::connection::ack_frequency::AckFrequencyState;
+use crate::connection::spaces::PendingAcks;
+use crate::frame::AckFrequency;
+use crate::transport_parameters::TransportParameters;
+use crate::{AckFrequencyConfig, Duration, Side, VarInt};
+
+pub(super) struct AckFreqC {
+    st: AckFrequencyState,
+    acks: PendingAcks,
+    config: AckFrequencyConfig,
+    params: TransportParameters,
+}
+
+const DMAX: u64 = 1 << 62;
+
+impl AckFreqC {
+    pub(super) fn new() -> Self {
+        let params = TransportParameters::default();
+        Self {
+            st: AckFrequencyState::new(crate::connection::get_max_ack_delay(&params)),
+            acks: PendingAcks::verif_new(),
+            config: AckFrequencyConfig::default(),
+            params,
+        }
+    }
+
+    fn state(&self) -> String {
+        let (inflight, next, last) = self.st.verif_state();
+        let (aet, reord) = self.acks.verif_thresholds();
+        format!(
+            "inflight={} next={next} peer_mad={} last={} mad={} thr={aet},{reord}",
+            inflight.map_or("none".to_string(), |(pn, d)| format!("{pn}:{}", d.as_nanos())),
+            self.st.peer_max_ack_delay.as_nanos(),
+            last.map_or("none".to_string(), |x| x.to_string()),
+            self.st.max_ack_delay.as_nanos(),
+        )
+    }
+}
+
+fn dur(s: &str) -> Option<Duration> {
+    let n = num(s)?;
+    (n < DMAX).then(|| Duration::from_nanos(n))
+}
+
+fn varint(s: &str) -> Option<VarInt> {
+    VarInt::from_u64(num(s)?).ok()
+}
+
+impl Comp for AckFreqC {
+    fn exec(&mut self, w: &[&str]) -> String {
+        match w {
+            ["new", d] => {
+                let Some(d) = dur(d) else { return BAD.into() };
+                *self = Self::new();
+                self.st = AckFrequencyState::new(d);
+                format!("ok {}", self.state())
+            }
+            ["peer", max_ms, min_us] => {
+                let Some(max_ms) = varint(max_ms) else { return BAD.into() };
+                let min_us = match *min_us {
+                    "none" => None,
+                    x => match varint(x) {
+                        Some(v) => Some(v),
+                        None => return BAD.into(),
+                    },
+                };
+                let mut p = TransportParameters::default();
+                p.max_ack_delay = max_ms;
+                p.min_ack_delay = min_us;
+                let mut buf = Vec::new();
+                p.write(&mut buf);
+                match TransportParameters::read(Side::Client, &mut buf.as_slice()) {
+                    Err(_) => "err TRANSPORT_PARAMETER_ERROR".into(),
+                    Ok(params) => {
+                        // Connection::set_peer_params
+                        self.st.peer_max_ack_delay = crate::connection::get_max_ack_delay(&params);
+                        self.params = params;
+                        format!("ok {}", self.state())
+                    }
+                }
+            }
+            ["cfg", d] => {
+                let d = match *d {
+                    "none" => None,
+                    x => match dur(x) {
+                        Some(d) => Some(d),
+                        None => return BAD.into(),
+                    },
+                };
+                self.config.max_ack_delay(d);
+                "ok".into()
+            }
+            ["cand", rtt] => {
+                let Some(rtt) = dur(rtt) else { return BAD.into() };
+                let d = self.st.candidate_max_ack_delay(rtt, &self.config, &self.params);
+                format!("ok {}", d.as_nanos())
+            }
+            ["should", rtt] => {
+                let Some(rtt) = dur(rtt) else { return BAD.into() };
+                let b = self.st.should_send_ack_frequency(rtt, &self.config, &self.params);
+                format!("{b}")
+            }
+            ["nextseq"] => {
+                let v = self.st.next_sequence_number();
+                format!("ok {} {}", v.into_inner(), self.state())
+            }
+            ["sent", pn, d] => {
+                let (Some(pn), Some(d)) = (num(pn), dur(d)) else { return BAD.into() };
+                self.st.ack_frequency_sent(pn, d);
+                format!("ok {}", self.state())
+            }
+            ["acked", pn] => {
+                let Some(pn) = num(pn) else { return BAD.into() };
+                self.st.on_acked(pn);
+                format!("ok {}", self.state())
+            }
+            ["pto"] => format!("ok {}", self.st.max_ack_delay_for_pto().as_nanos()),
+            ["recv", seq, aet, req, reord] => {
+                let (Some(sequence), Some(ack_eliciting_threshold), Some(request_max_ack_delay), Some(reordering_threshold)) =
+                    (varint(seq), varint(aet), varint(req), varint(reord))
+                else {
+                    return BAD.into();
+                };
+                let frame = AckFrequency {
+                    sequence,
+                    ack_eliciting_threshold,
+                    request_max_ack_delay,
+                    reordering_threshold,
+                };
+                match self.st.ack_frequency_received(&frame, &mut self.acks) {
+                    Ok(b) => format!("ok {b} {}", self.state()),
+                    Err(e) => {
+                        let code = if e.code == crate::TransportErrorCode::PROTOCOL_VIOLATION {
+                            "PROTOCOL_VIOLATION".to_string()
+                        } else {
+                            format!("code{}", u64::from(e.code))
+                        };
+                        format!("err {code} {}", self.state())
+                    }
+                }
+            }
+            _ => BAD.into(),
+        }
+    }
+}
